@@ -109,11 +109,15 @@ def work(job):
 
 
 def main():
-    args = [a for a in sys.argv[1:] if not a.startswith("-")]
+    args = [a for i, a in enumerate(sys.argv[1:], 1) if not a.startswith("-") and sys.argv[i - 1] not in ("--only", "-j")]
     jobs_n = int(sys.argv[sys.argv.index("-j") + 1]) if "-j" in sys.argv else 14
     if "-j" in sys.argv:
         args = [a for a in args if a != sys.argv[sys.argv.index("-j") + 1]]
     sel = args[0] if args else ""
+    only = None
+    if "--only" in sys.argv:  # a file of qualified names, one per line (e.g. the functions a previous run flagged)
+        only = {l.strip() for l in open(sys.argv[sys.argv.index("--only") + 1]) if l.strip()}
+        sel = ""
     # the functions the rules look at: every function named in a rules module's source, plus all methods of classes named there
     ctx = Ctx()
     text = "".join(open(os.path.join(HERE, "rules", f)).read() for f in os.listdir(os.path.join(HERE, "rules")) if f.endswith(".py"))
@@ -123,6 +127,8 @@ def main():
         if fi.parent is not None:
             continue
         if sel and sel not in q:
+            continue
+        if only is not None and q not in only:
             continue
         if short in text or (fi.cls is not None and fi.cls.name in text):
             jobs.append((fi.module.name, q))
